@@ -28,7 +28,11 @@ var slotDefs = []slotDef{
 	{"echo", "String", []*hx.Arg{strArg()}, "Echo"}, {"pick", "String", []*hx.Arg{strArg(), boolArg()}, "Pick"},
 	{"greet", "String", nil, "Greet"}, {"flip", "Boolean", []*hx.Arg{boolArg()}, "Flip"},
 	{"swap", "String", []*hx.Arg{strArg(), boolArg()}, "Swap"}, {"peer", "C", nil, "Peer"}, {"peers", "[C]", nil, "Peers"}, {"count", "Int", nil, "Count"},
+	{"vals", "[V]", nil, "Vals"}, {"val", "V", nil, "Val"},
 }
+
+// the slots of the by-value type Vee
+var veeSlots = map[string]bool{"str": true, "num": true, "flag": true, "greet": true, "echo": true, "flip": true}
 
 // alternative GraphQL names used together with RegisterField
 var renamePool = map[string][]string{"str": {"title", "label"}, "num": {"amount"}, "echo": {"shout"}, "obj": {"link"}, "objs": {"links"}, "flag": {"enabled"}, "peers": {"friends"}}
@@ -54,9 +58,14 @@ func slotType(typ, comp string) *hx.TRef {
 		return hx.Named(comp)
 	case typ == "E":
 		return hx.Named("Color")
+	case typ == "V":
+		return hx.Named(veeName)
 	}
 	return hx.Named(typ)
 }
+
+// veeName is the GraphQL name of the by-value type in the schema being generated ("" = not in it).
+var veeName string
 
 // GenUniverse draws a schema over the fixed universe of Go types.
 func GenUniverse(t *rapid.T, o UniverseOpts, c *Case) map[string]UBinding {
@@ -92,6 +101,23 @@ func GenUniverse(t *rapid.T, o UniverseOpts, c *Case) map[string]UBinding {
 		bind[name] = UBinding{Mode: mode}
 	}
 	c.GoType["Query"] = "UQuery"
+	// the by-value type
+	veeName = ""
+	if rapid.IntRange(0, 2).Draw(t, "hasVee") != 0 {
+		mode := rapid.SampledFrom([]string{"name", "go-short", "register", "register"}).Draw(t, "bindVee")
+		veeName = "TV"
+		switch mode {
+		case "name":
+			veeName = "Vee"
+		case "go-short":
+			dirs[veeName] = []hx.DirUse{{Name: "go", Args: []hx.KV{{Key: "type", V: hx.Str("Vee")}}}}
+		case "register":
+			reg[veeName] = true
+		}
+		names = append(names, veeName)
+		c.GoType[veeName] = "Vee"
+		bind[veeName] = UBinding{Mode: mode}
+	}
 	composites := append([]string{}, names...)
 	var impl []string
 	if o.Abstract {
@@ -116,6 +142,12 @@ func GenUniverse(t *rapid.T, o UniverseOpts, c *Case) map[string]UBinding {
 		}
 		used := map[string]bool{}
 		for _, sd := range slotDefs {
+			if name == veeName && !veeSlots[sd.name] {
+				continue
+			}
+			if strings.Contains(sd.typ, "V") && (veeName == "" || name == veeName) {
+				continue
+			}
 			must := isImpl && (sd.name == "str" || sd.name == "greet" || sd.name == "echo")
 			compSlot := strings.Contains(sd.typ, "C")
 			want := must || rapid.IntRange(0, 2).Draw(t, name+sd.name+"use") == 0 || (isQuery && compSlot && sd.name == "objs")
@@ -123,7 +155,7 @@ func GenUniverse(t *rapid.T, o UniverseOpts, c *Case) map[string]UBinding {
 				continue
 			}
 			gname := sd.name
-			if o.Renames && !must && rapid.IntRange(0, 3).Draw(t, name+sd.name+"ren") == 0 && !isQuery {
+			if o.Renames && !must && rapid.IntRange(0, 3).Draw(t, name+sd.name+"ren") == 0 && !isQuery && name != veeName {
 				if alts := renamePool[sd.name]; len(alts) > 0 {
 					gname = rapid.SampledFrom(alts).Draw(t, name+sd.name+"alt")
 					c.Rename[name+"."+gname] = sd.goNm
@@ -219,6 +251,9 @@ func GenUniverseGraph(t *rapid.T, c *Case) {
 		// the composite type of this owner (all composite slots share it)
 		comp := ""
 		for _, f := range td.Fields {
+			if sl := slotFor(c, n.Type, f.Name); sl == "vals" || sl == "val" {
+				continue
+			}
 			if s.IsComposite(f.Type.BaseName()) {
 				comp = f.Type.BaseName()
 			}
@@ -291,6 +326,14 @@ func GenUniverseGraph(t *rapid.T, c *Case) {
 				n.F[f.Name] = hx.List(rows...)
 			case "extra":
 				n.F[f.Name] = hx.Str(rapid.SampledFrom(stringPool).Draw(t, fl))
+			case "vals":
+				var l []hx.Val
+				for i := 0; i < rapid.IntRange(0, 3).Draw(t, fl+"n"); i++ {
+					l = append(l, refTo(f.Type.BaseName(), fmt.Sprintf("%s%d", fl, i), false))
+				}
+				n.F[f.Name] = hx.List(l...)
+			case "val":
+				n.F[f.Name] = refTo(f.Type.BaseName(), fl, false)
 			}
 		}
 	}
